@@ -174,6 +174,7 @@ func verifC04_Member() {
 func verifC04_Service() {
 	static := vMakeServers(2, false)
 	sp := &ServerPool{spec: &ServerPoolSpec{Servers: static, ServerTags: []string{"blue"}, LoadBalance: &LoadBalanceSpec{Policy: LoadBalancePolicyRoundRobin}}}
+	verifInitMaps(sp) // maps a bypassed constructor would have made
 	names := []string{"i0", "i1"}
 	prevTagged := 0
 	for round := 0; round < verifBound("discoveryRounds"); round++ {
@@ -225,6 +226,7 @@ func verifC04_Conc() {
 	n := verifChoose("n", 2) + 2
 	servers := vMakeServers(n, false)
 	sp := &ServerPool{spec: &ServerPoolSpec{Servers: servers, LoadBalance: &LoadBalanceSpec{Policy: LoadBalancePolicyRoundRobin}}}
+	verifInitMaps(sp) // maps a bypassed constructor would have made
 	sp.createLoadBalancer(servers)
 	rr := sp.LoadBalancer().(*roundRobinLoadBalancer)
 	bases := []uint64{0, 1<<32 - 1, 1<<62 + 1}
